@@ -171,7 +171,7 @@ class C14(System):
         st.aux = tmo.Stream(None, Water=0.375, Methanol=1.0, phase='l', T=330.0, thermo=A)
         if warm:
             # the memo is populated before the satellites are created (shortens the histories that expose a stale memo)
-            s.H; s.sigma
+            s.sigma; s.H          # the phase-keyed read comes last, so that 'H' stays memoised
         if extra == 'proxy': st.p = s.proxy()
         elif extra == 'link':
             st.k = self._new_k(st)
@@ -273,9 +273,15 @@ class C14(System):
             t = _truth(x)
             raise Violation('stale-read', f'{nm}.{q} = {got!r} but a fresh stream with the same flows/phase/T/P gives {exp!r} '
                             f'(object {nm}: {t[0]} phases {t[1]!r} flows {[np.asarray(r).tolist() for r in (t[2] if t[0] == "M" else [t[2]])]} T={t[3]} P={t[4]}; memo was {how})',
-                            match=dict(obj=nm, kind='multi' if t[0] == 'M' else 'single', memo=how, satellites=self._sat(st)),
-                            detail=dict(prop=q, got=got, expected=exp), residual=_resid(got, exp))
+                            match=dict(obj=nm, kind='multi' if t[0] == 'M' else 'single', memo=how, shared_memo=self._shared_memo(st, x)),
+                            detail=dict(prop=q, got=got, expected=exp, satellites=self._sat(st)), residual=_resid(got, exp))
         return how, got[0]
+
+    def _shared_memo(self, st, x):
+        """the memo dict of x is the same object as the memo dict of another live object of the universe"""
+        for nm, y in self._objs(st):
+            if y is not x and getattr(y, '_property_cache', None) is x._property_cache: return True
+        return False
 
     def _sat(self, st):
         return ''.join(c for c, x in (('p', st.p), ('k', st.k), ('v', st.v)) if x is not None)
@@ -402,7 +408,7 @@ SYSTEMS = [
     # every mutator x every read (x every satellite) from all 26 cold and warm starts
     C14('c14.wide', 'full', 2, 3, ('l', 'g', 'm', 'mc'), ('none', 'proxy', 'link', 'view'), tcap_t=900),
     # the same alphabet, one level deeper, from the 9 core starts (satellites can also be created by actions)
-    C14('c14.full', 'full', 3, 4, ('l', 'g', 'm', 'mc'), ('none', 'proxy', 'link', 'view'), only=_CORE, tcap_q=80, tcap_t=900),
+    C14('c14.full', 'full', 3, 4, ('l', 'g', 'm', 'mc'), ('none', 'proxy', 'link', 'view'), only=_CORE, tcap_q=150, tcap_t=900),
     # reduced alphabet (restoring mutations, reads through every object), deep histories
-    C14('c14.deep', 'deep', 5, 7, ('l', 'mc'), ('none', 'proxy', 'link', 'view'), warm=(False,), tcap_q=60, tcap_t=600),
+    C14('c14.deep', 'deep', 5, 7, ('l', 'mc'), ('none', 'proxy', 'link', 'view'), warm=(False,), tcap_q=120, tcap_t=600),
 ]
